@@ -63,6 +63,11 @@ type c07Pump struct {
 	heldNode  int
 	heldLeft  int
 	chaos   bool
+	// drip: one receiver gets its mail one or two messages per 100 ms tick, so
+	// that receptions are spread over all its (also the short-lived) states
+	drip     bool
+	dripNode int
+	dripInit bool
 }
 
 func (p *c07Pump) run(done func() bool, maxSteps int) bool {
@@ -86,6 +91,14 @@ func (p *c07Pump) run(done func() bool, maxSteps int) bool {
 				for _, n := range p.nodes {
 					p.pending[n] = append(p.pending[n], x)
 				}
+			}
+		}
+		if p.chaos && !p.dripInit {
+			p.dripInit = true
+			if tp.Chance("drip", 1, 2) {
+				p.drip = true
+				p.dripNode = p.nodes[tp.Choose("drip-who", len(p.nodes))]
+				r.Fault("drip-fed-member")
 			}
 		}
 		delivered := false
@@ -131,6 +144,13 @@ func (p *c07Pump) run(done func() bool, maxSteps int) bool {
 				now = append(now, now[tp.Choose("dup-which", len(now))])
 				r.Fault("duplicate")
 			}
+			if p.drip && n == p.dripNode && len(now) > 0 {
+				k := 1 + tp.Choose("drip-count", 2)
+				if k < len(now) {
+					later = append(append([]*verifadapt.Envelope(nil), now[k:]...), later...)
+					now = now[:k]
+				}
+			}
 			p.pending[n] = later
 			if len(now) > 0 {
 				p.sn.DeliverBatch(now, n)
@@ -140,7 +160,7 @@ func (p *c07Pump) run(done func() bool, maxSteps int) bool {
 		if p.heldLeft > 0 {
 			p.heldLeft--
 		}
-		if !delivered {
+		if !delivered || (p.drip && len(p.pending[p.dripNode]) > 0) {
 			idle++
 			time.Sleep(100 * time.Millisecond)
 			r.AddSim(int64(100*time.Millisecond), 0)
@@ -243,7 +263,7 @@ func c07Run(t *testing.T, r *verifsim.Run, mode string) {
 				r.Fault("message-from-excluded-member")
 			}
 		}
-		if tp.Chance("inject-session", 1, 4) {
+		if tp.Chance("inject-session", 1, 2) {
 			// a different operating member's content under a victim's seat and
 			// key, but in another session: must be ignored
 			v := operating[tp.Choose("inject-session-victim", len(operating))]
